@@ -1081,6 +1081,7 @@ class KillFault:
         self.fired = True
         world.kill_proc(proc, self.code, "fault")
         info = dict(proc.death_info)
+        info["siblings_alive"] = sum(1 for p in world.procs if p is not proc and not p.dead)
         info.update(self.to_json())
         world.fault_log.append(info)
         return "kill %s %s code=%d lock=%s torn=%s lost=%d" % (
